@@ -29,9 +29,13 @@ where
 
     fn poll_next(mut self: Pin<&mut Self>, cx: &mut Context<'_>) -> Poll<Option<Self::Item>> {
         self.waker.register(cx.waker());
+        #[cfg(feature = "crux_verif")]
+        crate::verif_sched::point(crate::verif_sched::Point::CommandStreamRegistered);
 
         // run_until_settled is idempotent
         self.deref_mut().run_until_settled();
+        #[cfg(feature = "crux_verif")]
+        crate::verif_sched::point(crate::verif_sched::Point::CommandStreamSettled);
 
         // Check events first to preserve the order in which items were emitted. This is because
         // sending events doesn't yield, and the next request/stream await point will be
